@@ -42,6 +42,19 @@ def conditions():
             yield ("or", ("and", p_, c1), ("and", ("not", p_), c2))
             yield ("or", ("and", ("not", p_), c1), ("and", p_, c2))
             yield ("and", ("or", p_, c1), ("or", ("not", p_), c2))
+    # a bare attribute as a condition (its truth value), alone and next to comparisons of the SAME attribute (in the shared-node
+    # mode one Attribute object then sits in condition and in operand position)
+    TA, TB, TY = ("truth", ("attr", "x", "a")), ("truth", ("attr", "x", "b")), ("truth", ("attr", "y", "a"))
+    for t_ in (TA, TB):
+        yield t_
+        yield ("not", t_)
+        for c_ in (("cmp", "==", t_[1], ("attr", "y", "b")), ("cmp", ">=", t_[1], ("const", 0)), ("cmp", "<", ("attr", "y", "a"), t_[1])):
+            yield ("and", ("not", t_), c_)
+            yield ("and", t_, c_)
+            yield ("or", t_, c_)
+            yield ("and", c_, ("not", t_))
+    yield ("and", TA, ("not", TY))
+    yield ("or", ("and", TA, TB), ("not", TA))
     # a nested sub-query as an operand, correlated with a variable of the enclosing query or not
     SUBS = [("eqsub", ("var", "x"), "u", ("cmp", "==", ("attr", "u", "a"), ("attr", "y", "b"))),
             ("eqsub", ("var", "x"), "u", ("cmp", "<", ("attr", "u", "a"), ("attr", "y", "a"))),
